@@ -56,9 +56,9 @@ def tasks(tier, seed):
         add("stale", 4, K, "sam_apx_10")
     # nine players (coalition ids need more than one byte), minimal knowledge: at minimal knowledge every split of a coalition is the
     # same linear term, so the run stays small for the plain superadditive computers
-    add("stale", 9, [], "superadditive_cached")
+    add("stale", 9, [], "superadditive_cached", timeout_ms=1500, max_task_s=150)
     if tier == "thorough":
-        add("stale", 9, [], "superadditive")
+        add("stale", 9, [], "superadditive", timeout_ms=1500, max_task_s=150)
     for comp in COMPUTERS[:4]:
         for K in fam3:
             add("order", 3, K, comp)
